@@ -131,6 +131,9 @@ class _Oracle:
         fluxes = {r.id: 0.0 for r in model.reactions}
         if terms == orig:
             kind, subj, val = "objective", None, OPT
+            # an optimal vertex: R_c at its upper bound (0), R_b at its lower bound (0), R_a at its upper bound -
+            # where a flux sits in *this* solution says nothing about its range under the constraints of the later steps
+            fluxes.update({"R_c": 0.0, "R_b": 0.0, "R_a": 17.0, "R_d": 1.5})
         elif terms == total:
             kind, subj, val = "total", None, TOTAL
         else:
@@ -162,7 +165,21 @@ def _remove(it, ev, c, args, kwargs):
     args[0].remove_cons_vars(args[1] if len(args) > 1 else kwargs["what"])
 
 
-STUBS = {"cobra.util.solver.check_solver_status": _check_status, "cobra.util.solver.add_cons_vars_to_problem": _add, "cobra.util.solver.remove_cons_vars_from_problem": _remove}
+def _get_solution(it, ev, c, args, kwargs):
+    """The solution of the last solve (flux series keyed by reaction id, deliberately not in model order)."""
+    from ..framemodel import Ser
+
+    model = args[0] if args else kwargs["model"]
+    reactions = kwargs.get("reactions", args[1] if len(args) > 1 else None)
+    if not model.solves:
+        raise Unsupported("get_solution before any solve")
+    f, v = model.solves[-1]
+    ids = [getattr(r, "id", r) for r in (list(model.reactions) if reactions is None else list(reactions))]
+    ids = list(reversed(ids))
+    return SolutionLP(f, ids, v, Ser([(model.last_fluxes or {}).get(i, 0.0) for i in ids], ids))
+
+
+STUBS = {"cobra.core.solution.get_solution": _get_solution, "cobra.core.get_solution": _get_solution, "cobra.util.solver.check_solver_status": _check_status, "cobra.util.solver.add_cons_vars_to_problem": _add, "cobra.util.solver.remove_cons_vars_from_problem": _remove}
 
 
 def _run(what: str, thunk):
